@@ -12,12 +12,17 @@ package aztec
 //@   attr fresh_bitlist ?
 //@   ensures result != nil
 
+// the stuffed length as a function of (bit list, word size): stuffBits is deterministic and only
+// reads its argument
+//@ func specfun azStuffLen(int,int) int
+
 //@ func stuffBits
 //@   abstract
 //@   attr fresh_bitlist ?
 //@   requires bits != nil && (wordSize == 4 || wordSize == 6 || wordSize == 8 || wordSize == 10 || wordSize == 12)
 //@   ensures result != nil && result.count % wordSize == 0 && bits.count <= result.count
 //@   ensures result.count <= ((bits.count + wordSize - 2) / (wordSize - 1)) * wordSize
+//@   ensures result.count == azStuffLen(bits, wordSize)
 
 //@ func generateCheckWords
 //@   abstract
@@ -37,4 +42,3 @@ package aztec
 //@   requires#words_min 1 <= messageSizeInWords
 //@   requires#words_max (compact ? messageSizeInWords <= 64 : messageSizeInWords <= 2048)
 //@   ensures result != nil && result.count == (compact ? 28 : 40)
-
